@@ -209,7 +209,11 @@ def _tokenize_template(source: str, rules: Pattern[str]) -> Iterator[Token]:  # 
             if lstrip:
                 value = value.lstrip()
             if match.group("rstrip"):
-                value = value.rstrip()
+                # The hyphen asks for whitespace control only if it is part of markup.
+                # A start delimiter that is never closed is text, and so is its hyphen.
+                following = rules.match(source, match.end())
+                if following is None or following.lastgroup != TOKEN_CONTENT:
+                    value = value.rstrip()
 
             if not value:
                 continue
